@@ -34,10 +34,12 @@ Inductive op :=
 | EndGame                  (* game.end_game() / event end_game *)
 | SlamTilt                 (* Tilt.slam_tilt: slam_tilted = True; tilt() -> end_ball() unless the game is ending *)
 | AddPlayerReq (allowed : bool)   (* game.request_player_add(); [allowed] = answer of the player_add_request handlers *)
+| ReleaseAdd (newest : bool)      (* a handler that held a player_adding queue open clears it (oldest / newest one) *)
 | AwardExtra.              (* game.player.extra_balls += 1 (when there is a current player) *)
 
-Record cfg := mkcfg { bpg : nat; maxp : nat; nbk : Z; own_ok : bool }.
-(* balls_per_game, max_players, ball_controller.num_balls_known, answer to the game's own first player_add_request *)
+Record cfg := mkcfg { bpg : nat; maxp : nat; nbk : Z; own_ok : bool; hold_adds : bool }.
+(* balls_per_game, max_players, ball_controller.num_balls_known, answer to the game's own first player_add_request,
+   and whether a handler of the player_adding queue event holds every new player's queue open until a ReleaseAdd *)
 
 Record st := mkst {
   pc : pc_t;
@@ -50,6 +52,9 @@ Record st := mkst {
   tactive : bool;               (* _player_turn_active (added by the fix) *)
   drainh : bool;                (* the ball_drain handler is registered *)
   pending : nat;                (* accepted player-add requests whose callback chain has not run yet *)
+  heldq : list nat;             (* players (numbers) created whose player_adding queue is still open, oldest first *)
+  rels : list nat;              (* player_adding queues cleared in this batch; their callbacks run after the batch *)
+  pev : bool;                   (* _at_least_one_player_event.is_set() *)
   xb : bool;                    (* is_extra_ball of the ball being run *)
   active : bool                 (* machine.game is not None *)
 }.
@@ -64,18 +69,21 @@ Inductive out :=
 
 (* ------------------------------------------------------------------------------------------- *)
 (* setters *)
-Definition set_pc v s := mkst v (players s) (cur s) (bip s) (endev s) (ending s) (slam s) (tactive s) (drainh s) (pending s) (xb s) (active s).
-Definition set_players v s := mkst (pc s) v (cur s) (bip s) (endev s) (ending s) (slam s) (tactive s) (drainh s) (pending s) (xb s) (active s).
-Definition set_cur v s := mkst (pc s) (players s) v (bip s) (endev s) (ending s) (slam s) (tactive s) (drainh s) (pending s) (xb s) (active s).
-Definition set_bipraw v s := mkst (pc s) (players s) (cur s) v (endev s) (ending s) (slam s) (tactive s) (drainh s) (pending s) (xb s) (active s).
-Definition set_endev v s := mkst (pc s) (players s) (cur s) (bip s) v (ending s) (slam s) (tactive s) (drainh s) (pending s) (xb s) (active s).
-Definition set_ending v s := mkst (pc s) (players s) (cur s) (bip s) (endev s) v (slam s) (tactive s) (drainh s) (pending s) (xb s) (active s).
-Definition set_slam v s := mkst (pc s) (players s) (cur s) (bip s) (endev s) (ending s) v (tactive s) (drainh s) (pending s) (xb s) (active s).
-Definition set_tactive v s := mkst (pc s) (players s) (cur s) (bip s) (endev s) (ending s) (slam s) v (drainh s) (pending s) (xb s) (active s).
-Definition set_drainh v s := mkst (pc s) (players s) (cur s) (bip s) (endev s) (ending s) (slam s) (tactive s) v (pending s) (xb s) (active s).
-Definition set_pending v s := mkst (pc s) (players s) (cur s) (bip s) (endev s) (ending s) (slam s) (tactive s) (drainh s) v (xb s) (active s).
-Definition set_xb v s := mkst (pc s) (players s) (cur s) (bip s) (endev s) (ending s) (slam s) (tactive s) (drainh s) (pending s) v (active s).
-Definition set_active v s := mkst (pc s) (players s) (cur s) (bip s) (endev s) (ending s) (slam s) (tactive s) (drainh s) (pending s) (xb s) v.
+Definition set_pc v s := mkst v (players s) (cur s) (bip s) (endev s) (ending s) (slam s) (tactive s) (drainh s) (pending s) (heldq s) (rels s) (pev s) (xb s) (active s).
+Definition set_players v s := mkst (pc s) v (cur s) (bip s) (endev s) (ending s) (slam s) (tactive s) (drainh s) (pending s) (heldq s) (rels s) (pev s) (xb s) (active s).
+Definition set_cur v s := mkst (pc s) (players s) v (bip s) (endev s) (ending s) (slam s) (tactive s) (drainh s) (pending s) (heldq s) (rels s) (pev s) (xb s) (active s).
+Definition set_bipraw v s := mkst (pc s) (players s) (cur s) v (endev s) (ending s) (slam s) (tactive s) (drainh s) (pending s) (heldq s) (rels s) (pev s) (xb s) (active s).
+Definition set_endev v s := mkst (pc s) (players s) (cur s) (bip s) v (ending s) (slam s) (tactive s) (drainh s) (pending s) (heldq s) (rels s) (pev s) (xb s) (active s).
+Definition set_ending v s := mkst (pc s) (players s) (cur s) (bip s) (endev s) v (slam s) (tactive s) (drainh s) (pending s) (heldq s) (rels s) (pev s) (xb s) (active s).
+Definition set_slam v s := mkst (pc s) (players s) (cur s) (bip s) (endev s) (ending s) v (tactive s) (drainh s) (pending s) (heldq s) (rels s) (pev s) (xb s) (active s).
+Definition set_tactive v s := mkst (pc s) (players s) (cur s) (bip s) (endev s) (ending s) (slam s) v (drainh s) (pending s) (heldq s) (rels s) (pev s) (xb s) (active s).
+Definition set_drainh v s := mkst (pc s) (players s) (cur s) (bip s) (endev s) (ending s) (slam s) (tactive s) v (pending s) (heldq s) (rels s) (pev s) (xb s) (active s).
+Definition set_pending v s := mkst (pc s) (players s) (cur s) (bip s) (endev s) (ending s) (slam s) (tactive s) (drainh s) v (heldq s) (rels s) (pev s) (xb s) (active s).
+Definition set_heldq v s := mkst (pc s) (players s) (cur s) (bip s) (endev s) (ending s) (slam s) (tactive s) (drainh s) (pending s) v (rels s) (pev s) (xb s) (active s).
+Definition set_rels v s := mkst (pc s) (players s) (cur s) (bip s) (endev s) (ending s) (slam s) (tactive s) (drainh s) (pending s) (heldq s) v (pev s) (xb s) (active s).
+Definition set_pev v s := mkst (pc s) (players s) (cur s) (bip s) (endev s) (ending s) (slam s) (tactive s) (drainh s) (pending s) (heldq s) (rels s) v (xb s) (active s).
+Definition set_xb v s := mkst (pc s) (players s) (cur s) (bip s) (endev s) (ending s) (slam s) (tactive s) (drainh s) (pending s) (heldq s) (rels s) (pev s) v (active s).
+Definition set_active v s := mkst (pc s) (players s) (cur s) (bip s) (endev s) (ending s) (slam s) (tactive s) (drainh s) (pending s) (heldq s) (rels s) (pev s) (xb s) v.
 
 Definition np (s : st) : nat := length (players s).
 Definition pl (s : st) : nat * nat := nth (cur s - 1) (players s) (0%nat, 0%nat).
@@ -100,9 +108,9 @@ Definition set_bip (c : cfg) (v : Z) (s : st) : st :=
   if negb (bip s =? 0) && (nv =? 0) then set_endev true s1 else s1.
 
 (* which of the two proposed fixes are applied; the theorems are about [fixed] *)
-Record variant := mkv { fix_gate : bool; fix_wait : bool }.
-Definition fixed : variant := mkv true true.
-Definition unfixed : variant := mkv false false.
+Record variant := mkv { fix_gate : bool; fix_wait : bool; fix_first : bool }.
+Definition fixed : variant := mkv true true true.
+Definition unfixed : variant := mkv false false false.
 
 (* request_player_add's own checks: not ending, below max_players, and the current player is not on a ball after
    ball 1 (unfixed: "self.player.ball > 1"; fixed: a player whose turn has not started is about to play ball+1) *)
@@ -121,21 +129,33 @@ Definition apply_op (v : variant) (c : cfg) (s : st) (o : op) : st * list out :=
   | EndGame => (set_endev true (set_ending true s), [])
   | SlamTilt => (let s1 := set_slam true s in if ending s then s1 else set_endev true s1, [])
   | AddPlayerReq a => (if gate v c s && a then set_pending (S (pending s)) s else s, [])
+  | ReleaseAdd newest =>
+      (match (if newest then rev (heldq s) else heldq s) with
+       | [] => s
+       | k :: q => set_rels (rels s ++ [k]) (set_heldq (if newest then rev q else q) s)
+       end, [])
   | AwardExtra => (upd_cur (fun be => (fst be, S (snd be))) s, [Award (cur s)])
   end.
 
-(* the callback chains of the accepted requests run: the players are created; the first one becomes self.player *)
-Definition flush (s : st) : st :=
+(* the callback chains of the accepted requests run: the players are created (numbered in order).  Without a
+   player_adding handler they are added at once; otherwise their queues stay open ([heldq]).  Then the callbacks of
+   the queues cleared in this batch run.  Every completed add sets _at_least_one_player_event, and if there is no
+   current player yet it sets one: the player that completed (unfixed) / the first player of the list (fixed). *)
+Definition flush (v : variant) (c : cfg) (s : st) : st :=
+  let created := seq (S (length (players s))) (pending s) in
   let ps := players s ++ repeat (0%nat, 0%nat) (pending s) in
-  let s1 := set_pending 0%nat (set_players ps s) in
-  match cur s, ps with
-  | O, _ :: _ => set_cur 1%nat s1
+  let done := (if hold_adds c then [] else created) ++ rels s in
+  let s1 := set_rels [] (set_heldq (heldq s ++ (if hold_adds c then created else [])) (set_pending 0%nat (set_players ps s))) in
+  match done, ps with
+  | k :: _, _ :: _ =>
+      let s2 := set_pev true s1 in
+      match cur s with O => set_cur (if fix_first v then 1%nat else k) s2 | _ => s2 end
   | _, _ => s1
   end.
 
 Fixpoint batch (v : variant) (c : cfg) (s : st) (ops : list op) : st * list out :=
   match ops with
-  | [] => (flush s, [])
+  | [] => (flush v c s, [])
   | o :: ops' => let (s1, o1) := apply_op v c s o in
                  let (s2, o2) := batch v c s1 ops' in (s2, o1 ++ o2)
   end.
@@ -150,8 +170,12 @@ Fixpoint batches (v : variant) (c : cfg) (s : st) (bs : list (list op)) : st * l
 (* ------------------------------------------------------------------------------------------- *)
 (* the coroutine between two suspension points *)
 Definition is_ball_start (k : kind) : bool := match k with BWS | BSg | BSd => true | _ => false end.
+Definition is_game_kind (k : kind) : bool :=
+  match k with GWS | GSg | GSd | GWE | GEg | GEd => true | _ => false end.
+(* game_* events carry no player: player and ball are reported as 0 for them *)
 Definition ev_of (k : kind) (s : st) : out :=
-  Ev k (cur s) (pball s) (is_ball_start k && xb s) (bip s) (np s).
+  Ev k (if is_game_kind k then 0%nat else cur s) (if is_game_kind k then 0%nat else pball s)
+     (is_ball_start k && xb s) (bip s) (np s).
 Definition goto (k : kind) (s : st) : st * list out := (set_pc (AtEv k) s, [ev_of k s]).
 
 Definition rotate (s : st) : st :=
@@ -175,16 +199,20 @@ Definition after_turn (c : cfg) (s : st) : st * list out :=
   then loop_head (set_ending true s)
   else loop_head (rotate s).
 
-Definition add_first_player (s : st) : st := set_cur 1%nat (set_players [(0%nat, 0%nat)] s).
+(* the game's own request for the first player (player_list is empty): created at once; added at once unless held *)
+Definition add_first_player (c : cfg) (s : st) : st :=
+  let s1 := set_players [(0%nat, 0%nat)] s in
+  if hold_adds c then set_heldq (heldq s ++ [1%nat]) s1 else set_pev true (set_cur 1%nat s1).
 
 Definition advance (v : variant) (c : cfg) (s : st) : st * list out :=
   match pc s with
   | AtEv GWS => goto GSg s
   | AtEv GSg =>
-      if (0 <? np s)%nat then goto GSd s
+      if (0 <? np s)%nat then goto GSd (set_pev true s)
       else
-        let s1 := if gate v c s && own_ok c then add_first_player s else s in
-        if (fix_wait v && ending s1) || (0 <? np s1)%nat then goto GSd s1 else (set_pc WaitPlayer s1, [])
+        let s0 := set_pev false s in
+        let s1 := if gate v c s0 && own_ok c then add_first_player c s0 else s0 in
+        if (fix_wait v && ending s1) || pev s1 then goto GSd s1 else (set_pc WaitPlayer s1, [])
   | WaitPlayer => goto GSd s
   | AtEv GSd => loop_head s
   | AtEv PTWS => goto PTSg s
@@ -220,7 +248,7 @@ Definition is_queue (k : kind) : bool :=
   match k with GSg | PTSg | PTEg | BSg | BEg | GEg => true | _ => false end.
 
 (* fixed: end_game() also sets _at_least_one_player_event *)
-Definition wait_player_ready (v : variant) (s : st) : bool := (fix_wait v && ending s) || (0 <? np s)%nat.
+Definition wait_player_ready (v : variant) (s : st) : bool := (fix_wait v && ending s) || pev s.
 
 Definition step_g (v : variant) (c : cfg) (s : st) (i : input) : st * list out :=
   match pc s with
@@ -242,7 +270,7 @@ Definition step_g (v : variant) (c : cfg) (s : st) (i : input) : st * list out :
 Definition step := step_g fixed.
 
 Definition init : st :=
-  mkst (AtEv GWS) [] 0%nat 0 false false false false false 0%nat false true.
+  mkst (AtEv GWS) [] 0%nat 0 false false false false false 0%nat [] [] false false true.
 Definition out0 : list out := [Ev GWS 0%nat 0%nat false 0 0%nat].
 
 Fixpoint steps_g (v : variant) (c : cfg) (s : st) (ins : list input) : st * list out :=
@@ -274,6 +302,6 @@ Definition enc (o : out) : list Z :=
   | Fin => [4]
   end.
 
-Definition cfgz (b m k : Z) (own : bool) : cfg := mkcfg (Z.to_nat b) (Z.to_nat m) k own.
+Definition cfgz (b m k : Z) (own ownheld : bool) : cfg := mkcfg (Z.to_nat b) (Z.to_nat m) k own ownheld.
 Definition run (ci : cfg * list input) : list (list Z) := map enc (trace (fst ci) (snd ci)).
 Definition out_eqb : list (list Z) -> list (list Z) -> bool := zss_eqb.
